@@ -317,12 +317,22 @@ Definition glue_pather (a o : list value) : option verdict :=
   | _, _ => None
   end.
 
+(* thorough tier, c15race: histories with two or more NTS clients per round ran under the Go race detector in a
+   child process (their cases are judged as mp.hist / mp.pather); outs: did the race detector report a data race,
+   did the child end abnormally otherwise *)
+Definition glue_race (a o : list value) : option verdict :=
+  match a, o with
+  | [VZ _; VZ _; VZ _], [VZ raced; VZ crashed] => Some (relational (crashed =? 0) (raced =? 0))
+  | _, _ => None
+  end.
+
 Definition glue_C15 (k : string) (a o : list value) : option verdict :=
   if is k "rand.intn" then glue_intn a o
   else if is k "rand.sample" then glue_sample a o
   else if is k "mp.hist" then glue_hist a o
   else if is k "mp.pather" then glue_pather a o
   else if is k "mp.pather.dupia" then glue_pather a o
+  else if is k "mp.race" then glue_race a o
   else None.
 
 Definition run_case (k : string) (a o : list value) : verdict := first_some [glue_C15] k a o.
